@@ -127,6 +127,9 @@ func finishCheck(prop, tier string, seed int64, spec PropSpec, results []jobResu
 			fallbackBy[k] += n
 			fmt.Fprintf(os.Stderr, "[%s] job %s: %d queries left undecided by z3 4.8.12 were decided by %s\n", prop, j.Name, n, k)
 		}
+		if s.SolverCrashRetries > 0 {
+			fmt.Fprintf(os.Stderr, "[%s] job %s: %d paths were re-run after the solver process died\n", prop, j.Name, s.SolverCrashRetries)
+		}
 		if s.UnknownFeas > 0 {
 			// feasibility unknowns keep the branch (sound) but are reported
 			fmt.Fprintf(os.Stderr, "[%s] job %s: %d feasibility queries were unknown (branches kept)\n", prop, j.Name, s.UnknownFeas)
